@@ -11,8 +11,10 @@ def register(check, pending):
           "plus class-stratified random workload is observed and the returned instruction list is simulated by an "
           "independent signed Pauli tableau; held means: exact signed state on every execution observed, all 5,962 "
           "(configuration, class) pairs and all input formats visited. Sampled (not decided) for n=6 groups, "
-          "generating sets and signs beyond the exhaustive part.",
-          TB, "DESIGN.md section 4 C01")
+          "generating sets and signs beyond the exhaustive part. A retention monitor re-inspects every returned circuit after later "
+          "calls, and request sequences around anchors (tableau neighbours, generator siblings, one-qubit variants) probe for answers "
+          "reused from a nearby input.",
+          TB, "DESIGN.md sections 4 C01, 7.2, 8")
     check("C02", RM + "instruction-by-instruction inspection of every delivered circuit against a transcribed edge table",
           "Every circuit handed out by any entry point during the workload (preparation, readout, compressed, all MUB circuits, "
           "tomography / stabilizer-measurement circuits on registers up to 8 qubits with ordered qubit lists) is inspected; the 20 "
@@ -22,12 +24,14 @@ def register(check, pending):
     check("C03", RM + "boundary monitor on get_readout_circuit, all 2^n group elements conjugated by the tableau oracle",
           "For every observed readout call all group elements (formed by the oracle) are conjugated through the returned circuit, the "
           "call is repeated with other sign patterns of the same generators (identical instruction list required) and the inverse "
-          "circuit is checked to prepare the group up to signs. Exhaustive over groups n<=4 (thorough n<=5), class-stratified above.",
+          "circuit is checked to prepare the group up to signs. Exhaustive over groups n<=4 (thorough n<=5), class-stratified above; "
+          "retention monitor and request sequences around anchors as in C01.",
           TB, "DESIGN.md section 4 C03")
     check("C04", RM + "online table keyed by (connectivity, oracle LC-orbit label) over delivered (cost, depth) pairs",
           "Members of every (configuration, class) pair that differ by local Cliffords, signs, generating sets and formats go through "
           "prepare, readout and compress; the set of observed (cost, depth) pairs per orbit must be a singleton and equal the lookup "
-          "metadata of the class id the library assigns. All 5,962 pairs observed; members sampled.",
+          "metadata of the class id the library assigns. All 5,962 pairs observed; members sampled; each member is requested on all its "
+          "configurations consecutively and anchors are followed by their tableau neighbours.",
           TB + "; LC-orbit labels decide LC equivalence (Van den Nest et al.)", "DESIGN.md section 4 C04")
     check("C05", RM + "monitored competitor workload: BFS witness circuits (exhaustive modulo local Cliffords) through the real compress/prepare APIs",
           "A breadth-first search over the LC-class transition graph (<=760 nodes) gives, for each of the 5,962 (configuration, class) "
@@ -39,13 +43,15 @@ def register(check, pending):
     check("C06", RM + "relation monitor {(library class id, oracle LC-orbit label)} over exhaustively enumerated groups",
           "determine_lc_class is observed on every stabilizer group of n<=5 (quick) / n<=6 (thorough: all 4,922,775 six-qubit groups) plus "
           "re-presentations; the id<->orbit relation must be a bijection onto 0..K-1, invariant under generators and signs; class "
-          "round trip and representative graphs checked. Thorough decides the property for the inputs quantifier except 'all generating "
-          "sets', which is sampled.",
+          "round trip and representative graphs checked, also as call sequences on one class object. Thorough decides the property for "
+          "the inputs quantifier except 'all generating sets', which is sampled.",
           TB + "; Van den Nest-Dehaene-De Moor theorem (label cross-checked by brute force for n<=4)", "DESIGN.md section 4 C06")
     check("C07", RM + "boundary monitor on compress_preparation_circuit (input snapshot before/after, output simulated)",
           "Random circuits over the documented gate set (lengths 0..2000, eight gate mixes incl. id/y/swap/redundant pairs/uncoupled "
           "two-qubit gates) on all 20 configurations: output must prepare the same signed state, obey the coupling graph, cost the "
-          "class's metadata cost (and be constant per orbit), input object untouched. Sampled (unbounded domain).",
+          "class's metadata cost (and be constant per orbit), input object untouched. Plus a circuit for a member of every (configuration, "
+          "class) pair, cheap inputs on uncoupled pairs, one circuit object reused with in-place caller edits, and a retention monitor on "
+          "returned circuits. Sampled (unbounded domain).",
           TB, "DESIGN.md section 4 C07")
     check("C08", RM + "outcome-class monitor (returned vs exception) with tableau judgement of every returned circuit",
           "Arbitrary Pauli sets (all 2^8 x 4 for n=2, 30k/all 2^18 for n=3 validate, sampled hostile sets n=3..6) through validate / prepare / "
@@ -59,7 +65,8 @@ def register(check, pending):
     check("C10", RM + "real fitter fed with exact statistics through a duck-typed result; operator-basis spanning set + monitored linearity",
           "For every configuration the complete operator basis of 4^n states goes through the real FullStateTomographyFitter in one "
           "vector-valued pass (exact integers); linearity of the real code path is probed with scalar counts; dense random states "
-          "(incl. circuit-prepared ones) are reconstructed to 1e-9. Exactness on the spanning set + linearity => all density matrices.",
+          "(incl. circuit-prepared ones, caller circuits with their own metadata, different shot totals per circuit) are reconstructed to "
+          "1e-9. Exactness on the spanning set + linearity => all density matrices.",
           TB + "; dense simulator", "DESIGN.md section 4 C10")
     check("C11", RM + "both measurement APIs with ordered measured-qubit lists, fitter outputs in both modes vs ordered partial trace",
           "Registers N<=8, ordered lists exhaustive for small N, both APIs, both output modes; values decided on the operator basis of the "
@@ -67,12 +74,14 @@ def register(check, pending):
           TB + "; dense simulator / partial trace", "DESIGN.md section 4 C11")
     check("C12", RM + "real StabilizerMeasurementFitter on exact statistics: key set and values on the complete operator basis",
           "Exactly 2^n phase-free keys = identity + unsigned group elements; values exact on all 4^n basis states per case (so input signs "
-          "cannot leak) and on dense states. Exhaustive over groups x signs x configurations for n<=3, class-stratified above.",
+          "cannot leak) and on dense states; circuits are built on shared caller circuits with metadata and fitted only after the next "
+          "one was built; result_index with decoy experiments. Exhaustive over groups x signs x configurations for n<=3, class-stratified above.",
           TB + "; dense simulator", "DESIGN.md section 4 C12")
     check("C13", RM + "offline checker over recorded API sessions vs answers of a pristine forked process and of another interpreter",
           "Sessions in fresh interpreters (three hash seeds) interleave calls of 18 entry points, caller-side mutation of everything "
-          "returned earlier and re-requests; every result must equal a pristine process's answer, arguments must be unchanged; an audit "
-          "hook records cold/warm cache. Sampled histories.",
+          "returned earlier and re-requests; every result must equal a pristine process's answer, arguments (incl. metadata of caller "
+          "circuits) must be unchanged, untouched earlier results must stay unchanged (retention monitor); an audit hook records "
+          "cold/warm cache. Sampled histories.",
           TB + "; fork-before-first-call = fresh interpreter (cross-checked against a separately started interpreter)", "DESIGN.md section 4 C13")
     check("C14", RM + "constructor / export monitor vs independent Pauli parser and circuit simulator",
           "All five input formats, export round trip and mirror image, Graph.to_circuit for all graphs on <=5 vertices (sampled/all on 6) "
@@ -80,7 +89,8 @@ def register(check, pending):
           TB, "DESIGN.md section 4 C14")
     check("C15", RM + "icontract post-conditions on is_equivalent_mod_phase / expand / is_qubit_entangled",
           "Contracts attached to the real methods compare every evaluation with canonical forms / brute-force group expansion; all ordered "
-          "pairs of groups n<=3, all (group, qubit) n<=5, structured near-miss pairs n=4..6.",
+          "pairs of groups n<=3, all (group, qubit) n<=5, structured near-miss pairs n=4..6, call sequences on one object interleaved with "
+          "classification / readout requests, retention of the arrays returned by expand().",
           TB + "; icontract", "DESIGN.md section 4 C15")
     check("C16", RM + "outcome judge on find_local_clifford_layer / local_clifford_layer_to_circuit vs brute force over 6^n layers",
           "Full stabilizers against graphs of their own and other orbits and partial operator sets; existence by brute force (n<=5, n=6 "
@@ -96,5 +106,6 @@ def register(check, pending):
           "in-situ calls of the pipeline; outputs compared with a bit-int RREF and brute-force span/kernel enumeration.",
           TB + "; icontract", "DESIGN.md section 4 C18")
     check("C19", RM + "exhaustive codec monitor vs independent adjacency-bitmask implementation",
-          "All graphs on 2..6 vertices x all vertices, all class ids, all grouping indices, all pair indices. Exhaustive.",
+          "All graphs on 2..6 vertices x all vertices, all class ids, all grouping indices, all pair indices (exhaustive), plus random "
+          "operation sequences on one Graph object mirrored on a bit-mask reference model.",
           TB, "DESIGN.md section 4 C19")
